@@ -360,9 +360,9 @@ def _verify(case, tier, seed):
         obls.append(o)
     if exp is None:
         # the documented rules leave a destination field without a source: no converter may be produced
-        simple("refused", ["C13"], not created, f"a converter was produced although {refuse}")
+        simple("refused", ["C13", "C14"], not created, f"a converter was produced although {refuse}")
     else:
-        simple("created", ["C13"], created, f"creation failed: {err}")
+        simple("created", ["C13", "C14"], created, f"creation failed: {err}")
     mism = []
     if exp is not None and created:
         srcs = all_sources(conv)
@@ -534,6 +534,12 @@ def conv_family(tier="quick", group="base"):
     add("unlinked-optional-forbidden", A3, M("B", [CF("a"), CF("o", "t0", ("value", 7))]))
     add("unlinked-required", A3, M("B", [CF("a"), CF("zz")]))
     add("optional-but-linkable", A3, M("B", [CF("a"), CF("b", "t0", ("value", 7))]), [("allow_unlinked", None)])
+    # the policy is per field: permitting one unlinked optional field says nothing about the next one
+    two_opt = M("B", [CF("a"), CF("o1", "t0", ("value", 7)), CF("o2", "t0", ("value", 8))])
+    add("unlinked-first-allowed-second-not", A3, two_opt, [("allow_unlinked", "o1")])
+    add("unlinked-second-allowed-first-not", A3, two_opt, [("allow_unlinked", "o2")])
+    add("unlinked-both-allowed", A3, two_opt, [("allow_unlinked", "o1"), ("allow_unlinked", "o2")])
+    add("unlinked-regex-allowed", A3, two_opt, [("allow_unlinked", "o.")])
     # coercion
     At = M("A", [CF("a", "t1"), CF("b", "t1"), CF("c", "t0")])
     add("coercer", At, M("B", [CF("a", "t2"), CF("c")]), [("coercer", "t1", "t2", c1)])
